@@ -17,7 +17,7 @@ struct RTok A;
 void h_c11_range_compact(void)
 {
   unsigned n; XMLInt32 c;
-  VERIF_INPUT(n); VERIF_INPUT(c);
+  ARENA_INPUT() VERIF_INPUT(n); VERIF_INPUT(c);
   VERIF_ASSUME(n >= 1 && n <= NR && c >= 0 && c <= UTF16_MAX);
   mk_token(&A, T_RANGE, n, 2 * NR, 0, 0);     /* allocation of a constant size: symbolic sizes make cbmc's memory model explode (probed: 11 GB) */
   WELLFORMED(A.rt.fRanges, n)
